@@ -31,6 +31,7 @@ Decides:
  B builders       help(..), descr/header/footer/usage/version, group_help, custom_usage store their argument in the field of the same name (wiring table).
  H has_help        table per HelpItem variant: a variant with an optional help is listed inside an adjacent block exactly when its help is Some.
  H env values      the current value of an environment variable enters the help only Debug-quoted ({:?}): its line breaks cannot act as paragraph breaks.
+ C splitter cuts   the word scanner of the splitter cuts at byte offsets of character boundaries (shared with C04): non-ASCII help text renders.
 Does not decide: de-duplication and grouping outcomes for particular shapes."""
 import re
 from core import *
